@@ -35,11 +35,21 @@ def check(v, tier, opts):
         "tea_dtype::Number::{min_with,max_with}",
         "sources: owned Vec (into_iter), Vec::titer(), OptIter (&vec.opt() and vec.opt().titer())",
     ])
-    v.bounds.append("N in 0..=4 quick, 0..=5 thorough; elements Option<i32> / i32 unconstrained for counting, first/last, extrema and "
-                    "arg-extrema, -2..=2 (ties) for f64-with-NaN and tie witnesses, |x| <= 1000 for i32 sums, full i32 range for "
-                    "Option<i64> sums; min_periods 0..=N+1; bool masks as Vec<bool> and Vec<Option<bool>>")
+    if tier == "quick":
+        v.bounds.append("quick: one length per harness (CBMC cost is super-linear in harness size); every (family, source) at N = 3 "
+                        "(owned vector, option view) or N = 4 (borrowed iterator), the lengths 0, 1, 2 on the borrowed iterator of each "
+                        "family; permutation harnesses N in {2, 3}; fold protocols: 4 element types x owned at N = 3, titer at N = 4, "
+                        "option view at N = 3 (f64, i32, Option<i32>), N in {0, 1} / {2} for Option<i32> / f64")
+    else:
+        v.bounds.append("thorough: every (family, element class, source) at every N in 0..=5")
+    v.bounds.append("elements Option<i32> / i32 unconstrained for counting, first/last, extrema and arg-extrema; f64 from -2..=2 with a "
+                    "symbolic NaN mask; |x| <= 1000 for i32 sums, full i32 range for Option<i64> / i64 sums; min_periods 0..=N+1; bool "
+                    "masks as Vec<bool> and Vec<Option<bool>>; fold-protocol items: unconstrained bit patterns (f64: every non-NaN value, "
+                    "any NaN payload is the null)")
     v.outside.append("lengths above the bound; float sums and all moment formulas (Engine M); element types other than i32 / i64 / f64 / "
                      "bool and their Option forms; Some(NaN) (DESIGN 5.4)")
     v.assumptions.append("canonical nulls only (NaN for f64, None for Option<_>)")
+    v.assumptions.append("null-unaware min / max / argmin / argmax on floats: checked on NaN-free series in the main harnesses; series "
+                         "containing NaN are the isolated c11_plain_nan_* harnesses")
     kani_engine.decide(v, "C11", tier, opts)
     return v.finish(RULE)
